@@ -183,6 +183,8 @@ def parse_ok(s: str):
 
 def family_text(t: str) -> str:
     t = t.replace("const ", "")
+    if t.startswith("list<") and t.endswith(">"):
+        return "list<" + family_text(t[5:-1]) + ">"      # (a return type `List(S)`: the family of the element type)
     if t in ("int", "uint8", "uint16", "uint32", "uint64", "int8", "int16", "int32", "int64"):
         return "int"
     if t in ("float", "float32", "float64") or t.startswith("decimal"):
